@@ -1,6 +1,191 @@
-From Coq Require Import ZArith NArith List Bool.
-Require Import Webob.Lib.Val Webob.Lib.PyStr Webob.Model.C05_AcceptLang.
+(* C05 — Accept-Language basic filtering and lookup implement RFC 4647.
+   Property theorems only; each is closed by [exact] of a lemma proved in Proofs/, followed by
+   Print Assumptions.  Model: Model/C05_AcceptLang.v (tied to webob by the correspondence check);
+   vocabulary of the statements: Spec/C05_Rfc4647.v. *)
+From Coq Require Import ZArith NArith List Bool Sorted Permutation String.
+Require Import Webob.Lib.Val Webob.Lib.PyStr Webob.Model.C05_AcceptLang Webob.Spec.C05_Rfc4647
+               Webob.Proofs.C05_sort Webob.Proofs.C05_lookup Webob.Proofs.C05_filtering.
 Import ListNotations.
-Theorem C05_placeholder : basic_filtering_nohdr [] = [].
-Proof. exact eq_refl. Qed.
-Print Assumptions C05_placeholder.
+Local Open Scope N_scope.
+
+(* ===================================================================== basic filtering *)
+(* For every parsed header and every offered list, the result is the list of rows (offer index,
+   quality, header position) such that
+   - exactly the offers governed by the header appear (each offer position at most once): an offer
+     is governed with (q, pos) iff no q=0 range matches it under RFC 4647 3.3.1 and (q, pos) belong
+     to its best non-zero matching range, or to '*' when no other range matches it;
+   - rows are ordered by quality descending, then header position, then offer position;
+   - each row is returned as (the offered tag in its original spelling, quality). *)
+Theorem C05_basic_filtering_spec : forall p tags,
+  exists rows : list tag_row,
+    basic_filtering p tags = map (fun x => (nth (tr_idx x) tags [], tr_q x)) rows /\
+    NoDup (map tr_idx rows) /\
+    (forall i q pos, In (i, q, pos) rows <-> exists t, nth_error tags i = Some t /\ governs p t q pos) /\
+    StronglySorted row_before rows.
+Proof. exact basic_filtering_spec. Qed.
+Print Assumptions C05_basic_filtering_spec.
+
+Theorem C05_basic_filtering_sound : forall p tags t q,
+  In (t, q) (basic_filtering p tags) -> exists i pos, nth_error tags i = Some t /\ governs p t q pos.
+Proof. exact basic_filtering_sound. Qed.
+Print Assumptions C05_basic_filtering_sound.
+
+Theorem C05_basic_filtering_complete : forall p tags i t q pos,
+  nth_error tags i = Some t -> governs p t q pos -> In (t, q) (basic_filtering p tags).
+Proof. exact basic_filtering_complete. Qed.
+Print Assumptions C05_basic_filtering_complete.
+
+(* the quality and position an offer carries are determined by the header *)
+Theorem C05_governs_functional : forall p t q pos q' pos',
+  governs p t q pos -> governs p t q' pos' -> q = q' /\ pos = pos'.
+Proof. exact governs_functional. Qed.
+Print Assumptions C05_governs_functional.
+
+(* a range has one first occurrence: "the" quality and position of a range are well defined *)
+Theorem C05_first_occurrence_unique : forall p pos r0 q pos' r0' q',
+  first_occurrence p pos r0 q -> first_occurrence p pos' r0' q' -> lower r0 = lower r0' ->
+  pos = pos' /\ q = q' /\ r0 = r0'.
+Proof. exact first_occurrence_unique. Qed.
+Print Assumptions C05_first_occurrence_unique.
+
+(* the implementation's match(tag, range_) on lower-cased text is RFC 4647 3.3.1 matching *)
+Theorem C05_match_is_rfc4647_331 : forall r t, bf_match (lower t) (lower r) = true <-> matches331 r t.
+Proof. exact bf_match_spec. Qed.
+Print Assumptions C05_match_is_rfc4647_331.
+
+Example C05_basic_filtering_example :
+  basic_filtering [(txt "a-B", 0); (txt "A", 500); (txt "*", 200); (txt "c", 500); (txt "a", 900)]
+                  [txt "a-b-c"; txt "C-x"; txt "zz"; txt "A-c"; txt "a"] =
+  [(txt "A-c", 500); (txt "a", 500); (txt "C-x", 500); (txt "zz", 200)].
+Proof. vm_compute. reflexivity. Qed.
+
+(* ===================================================================== lookup *)
+(* lookup is: argument errors; else the first hit over the header's candidates (ranges in
+   descending quality, each followed by its RFC 4647 3.4 truncations; within one candidate the
+   offers in offered order; an offer hits when its lower-cased text equals the candidate and is not
+   listed with q=0); else, unless '*;q=0' is present, the same search over default_range's
+   truncations, then default_tag unless listed with q=0; else default.  Out-of-fuel cannot happen. *)
+Theorem C05_lookup_spec : forall p tags default_range default_tag dflt_none,
+  lookup p tags default_range default_tag dflt_none =
+  lookup_spec p tags default_range default_tag dflt_none.
+Proof. exact lookup_is_spec. Qed.
+Print Assumptions C05_lookup_spec.
+
+Theorem C05_lookup_never_out_of_fuel : forall p tags dr dt dn, lookup p tags dr dt dn <> LFuel.
+Proof. exact lookup_never_fuel. Qed.
+Print Assumptions C05_lookup_never_out_of_fuel.
+
+(* what "first hit" means: lexicographic order (candidate position, offered position) *)
+Theorem C05_first_hit_order : forall zero cands tags t,
+  first_hit zero cands tags = Some t ->
+  exists k i c, nth_error cands k = Some c /\ nth_error tags i = Some t /\ hits zero c t /\
+    (forall i' t', (i' < i)%nat -> nth_error tags i' = Some t' -> ~ hits zero c t') /\
+    (forall k' c' t', (k' < k)%nat -> nth_error cands k' = Some c' -> In t' tags -> ~ hits zero c' t').
+Proof. exact first_hit_some. Qed.
+Print Assumptions C05_first_hit_order.
+
+Theorem C05_first_hit_none : forall zero cands tags,
+  first_hit zero cands tags = None <-> forall c t, In c cands -> In t tags -> ~ hits zero c t.
+Proof. exact first_hit_none. Qed.
+Print Assumptions C05_first_hit_none.
+
+Theorem C05_first_hit_unique : forall zero cands tags k i c t k2 i2 c2 t2,
+  nth_error cands k = Some c -> nth_error tags i = Some t -> hits zero c t ->
+  (forall i' t', (i' < i)%nat -> nth_error tags i' = Some t' -> ~ hits zero c t') ->
+  (forall k' c' t', (k' < k)%nat -> nth_error cands k' = Some c' -> In t' tags -> ~ hits zero c' t') ->
+  nth_error cands k2 = Some c2 -> nth_error tags i2 = Some t2 -> hits zero c2 t2 ->
+  (forall i' t', (i' < i2)%nat -> nth_error tags i' = Some t' -> ~ hits zero c2 t') ->
+  (forall k' c' t', (k' < k2)%nat -> nth_error cands k' = Some c' -> In t' tags -> ~ hits zero c' t') ->
+  t = t2.
+Proof. exact first_hit_unique. Qed.
+Print Assumptions C05_first_hit_unique.
+
+(* the range priority: the non-'*', non-zero ranges, by descending quality, ties in header order *)
+Theorem C05_priority_order : forall p,
+  Permutation (priority p) (nonzero_ranges p) /\
+  StronglySorted (fun x y : str * N => snd y <= snd x) (priority p) /\
+  (forall q, filter (fun e : str * N => snd e =? q) (priority p) =
+             filter (fun e => snd e =? q) (nonzero_ranges p)).
+Proof. exact (fun p => conj (priority_perm p) (conj (priority_sorted p) (priority_stable p))). Qed.
+Print Assumptions C05_priority_order.
+
+(* the truncation loop of best_match tries exactly the RFC 4647 3.4 truncations of the range, in
+   order, and stops at the first hit (for every range text, tag list and q=0 list) *)
+Theorem C05_best_match_truncations : forall zero tags r,
+  best_match zero tags (map lower tags) r = res_of (first_hit zero (truncations r) tags).
+Proof. exact best_match_spec. Qed.
+Print Assumptions C05_best_match_truncations.
+
+(* RFC 4647 3.4 truncation, subtag by subtag: the last subtag is dropped, and a single letter or
+   digit subtag in front of it is dropped with it; an emptied range ends the search *)
+Theorem C05_truncation_singleton : forall pre b l,
+  truncation_seqs [] = [] /\
+  truncation_seqs [l] = [[l]] /\
+  truncation_seqs (pre ++ [b; l]) =
+    (pre ++ [b; l]) :: (if singleton b then truncation_seqs pre else truncation_seqs (pre ++ [b])).
+Proof.
+  exact (fun pre b l => conj truncation_seqs_nil (conj (truncation_seqs_one l) (truncation_seqs_step pre b l))).
+Qed.
+Print Assumptions C05_truncation_singleton.
+
+Theorem C05_truncations_start_with_range : forall r, exists rest, truncations r = r :: rest.
+Proof. exact truncations_head. Qed.
+Print Assumptions C05_truncations_start_with_range.
+
+Example C05_truncation_rfc_example :
+  truncations (txt "zh-hant-cn-x-private1-private2") =
+  [txt "zh-hant-cn-x-private1-private2"; txt "zh-hant-cn-x-private1"; txt "zh-hant-cn"; txt "zh-hant"; txt "zh"].
+Proof. vm_compute. reflexivity. Qed.
+
+Example C05_truncation_singleton_first : truncations (txt "x-private") = [txt "x-private"].
+Proof. vm_compute. reflexivity. Qed.
+
+(* a returned str is an offered tag (original spelling) or default_tag, and is never listed with
+   q=0 (in any spelling) *)
+Theorem C05_lookup_result_sound : forall p tags dr dt dn t,
+  lookup p tags dr dt dn = LTag t -> (In t tags \/ dt = Some t) /\ ~ In (lower t) (zero_ranges p).
+Proof. exact lookup_tag_sound. Qed.
+Print Assumptions C05_lookup_result_sound.
+
+Theorem C05_zero_ranges : forall p z,
+  In z (zero_ranges p) <-> exists r, In (r, 0) p /\ r <> star /\ lower r = z.
+Proof. exact zero_ranges_In. Qed.
+Print Assumptions C05_zero_ranges.
+
+(* '*;q=0' suppresses default_range and default_tag *)
+Theorem C05_star_q0_suppresses_defaults : forall p tags dr dt dn,
+  star_q0 p = true -> first_hit (zero_ranges p) (header_candidates p) tags = None ->
+  lookup p tags dr dt dn = LDefault \/ lookup p tags dr dt dn = LTypeError \/
+  lookup p tags dr dt dn = LValueError.
+Proof. exact lookup_star_q0. Qed.
+Print Assumptions C05_star_q0_suppresses_defaults.
+
+Theorem C05_lookup_argument_errors : forall p tags dr dt dn,
+  (lookup p tags dr dt dn = LTypeError <-> (dt = None /\ dn = true)) /\
+  (lookup p tags dr dt dn = LValueError <-> (~ (dt = None /\ dn = true) /\ dr = Some star)).
+Proof. exact lookup_errors. Qed.
+Print Assumptions C05_lookup_argument_errors.
+
+Example C05_lookup_example_header :
+  lookup [(txt "de", 500); (txt "EN-gb-x-a", 800); (txt "en-GB", 0); (txt "*", 900)]
+         [txt "De"; txt "en-gb"; txt "EN"] None (Some (txt "fallback")) false = LTag (txt "EN").
+Proof. vm_compute. reflexivity. Qed.
+
+Example C05_lookup_example_default_range :
+  lookup [(txt "en-gb", 0)] [txt "en-GB"; txt "En"] (Some (txt "en-gb-oed")) (Some (txt "en-gb")) false
+  = LTag (txt "En").
+Proof. vm_compute. reflexivity. Qed.
+
+Example C05_lookup_example_star_q0 :
+  lookup [(txt "fr", 1000); (txt "*", 0)] [txt "en"] (Some (txt "en")) (Some (txt "en")) false = LDefault.
+Proof. vm_compute. reflexivity. Qed.
+
+(* ===================================================================== invalid / missing header *)
+Theorem C05_invalid_header : forall (tags : list str) dt dn,
+  basic_filtering_nohdr tags = [] /\
+  lookup_nohdr dt dn = match dt with
+                       | Some t => LTag t
+                       | None => if dn then LTypeError else LDefault
+                       end.
+Proof. exact nohdr_spec. Qed.
+Print Assumptions C05_invalid_header.
